@@ -78,7 +78,7 @@ def needed_text(cpp_text: str, names: list) -> str:
 	lines = cpp_text.split('\n')
 	i = 0
 	while i < len(lines):
-		m = fronts.CLASS_HEAD.match(lines[i])
+		m = fronts.CLASS_HEAD.match(lines[i]) or fronts.ENUM_HEAD.match(lines[i])
 		if m and any(m.group(1).lower().startswith(n.lower()) for n in names):
 			j = i
 			while j < len(lines) and lines[j] != '};':
@@ -199,6 +199,7 @@ def handle(entries: list) -> dict:
 		text = cpp_text if cpp_text is not None else emitted[name]
 		try:
 			cc = fronts.cpp_classes(text)  # first: the statement parser needs the class names
+			ce = fronts.cpp_enums(text)
 			cf = fronts.cpp_functions(text)
 			pf = fronts.py_functions(src if cpp_text is None else module_src)
 			pc = fronts.py_classes(src if cpp_text is None else module_src)
@@ -210,6 +211,7 @@ def handle(entries: list) -> dict:
 			prem = sem.Premises()
 			mp, mc = sem.Machine(pf, 'py', prem, UNROLL, pc), sem.Machine(cf, 'cpp', None, UNROLL, cc)
 			mc.source_field_order = {k: list(v['fields']) for k, v in pc.items()}
+			mp.enums, mc.enums = fronts.py_enums(src if cpp_text is None else module_src), ce
 			rp, vp = mp.run(name, inputs)
 			rc, vc = mc.run(name, inputs)
 			class_conds: dict = {}
